@@ -36,6 +36,14 @@ def stepLine (s : Option Meas) (line : String) : Option Meas × String :=
       | some sys, some a, some b =>
         (s, showInternal (oneWayStep { fromSystem := sys != 0, senderTs := a, receiverTs := b }))
       | _, _, _ => (s, "bad-op")
+    else if op == "sock" then
+      -- GPSd/SOCK composition: sender_ts = time - from_seconds(offset), receiver_ts = time
+      match kvInt? args "r", (kv? args "x").bind F64.ofHex? with
+      | some t, some x =>
+        match fromSeconds x with
+        | some d => (s, showInternal (oneWayStep { fromSystem := false, senderTs := tsSubDur t d, receiverTs := t }))
+        | none => (s, "panic")
+      | _, _ => (s, "bad-op")
     else if op == "pkt" then
       match kvInt? args "send", kvInt? args "rts", kvInt? args "tts", kvInt? args "recv" with
       | some a, some b, some c, some d =>
